@@ -295,8 +295,9 @@ type Env struct {
 	HTTP      bool
 
 	observing    bool
-	auditLatched bool // an audit write failed and the process was not restarted
-	diskFaultRun bool // this run injects disk-full calls
+	auditLatched bool   // an audit write failed and the process was not restarted
+	diskFaultRun bool   // this run injects disk-full calls
+	laxIno       uint64 // inode of the database file an operator gave a lax mode (0: none)
 	parkAudit    bool
 	parkHTTP     bool
 
@@ -446,41 +447,34 @@ func (e *Env) MakeCallers(n int, patterns []string) {
 		patterns = append(append([]string{}, patterns...), e.derivedPatterns()...)
 	}
 	for i := 1; i <= n; i++ {
-		nr := e.T.Range(0, 3)
-		var rules []model.Rule
-		for j := 0; j < nr; j++ {
-			var r model.Rule
-			na := e.T.Range(1, 3)
-			for k := 0; k < na; k++ {
-				r.Actions = append(r.Actions, allActions[e.T.Choice(len(allActions))])
-			}
-			np := e.T.Range(1, 2)
-			for k := 0; k < np; k++ {
-				r.Patterns = append(r.Patterns, patterns[e.T.Choice(len(patterns))])
-			}
-			rules = append(rules, r)
-		}
-		c := mk(i, rules)
+		c := mk(i, e.drawRules(patterns))
 		c.LegacyCap = e.T.Bool(1, 5)
 		e.Callers = append(e.Callers, c)
 	}
 }
 
+// drawRules draws a rule set: mostly a few small rules, sometimes many rules
+// and rules with long pattern and action lists (3, 5, 6, 7 ... entries).
+func (e *Env) drawRules(pats []string) []model.Rule {
+	nr := e.T.Weighted([]int{2, 4, 4, 3, 2, 1})
+	var rules []model.Rule
+	for j := 0; j < nr; j++ {
+		var r model.Rule
+		for k, na := 0, 1+e.T.Weighted([]int{5, 4, 2, 1}); k < na; k++ {
+			r.Actions = append(r.Actions, allActions[e.T.Choice(len(allActions))])
+		}
+		for k, np := 0, 1+e.T.Weighted([]int{8, 6, 4, 1, 2, 1, 1}); k < np; k++ {
+			r.Patterns = append(r.Patterns, pats[e.T.Choice(len(pats))])
+		}
+		rules = append(rules, r)
+	}
+	return rules
+}
+
 // redrawRules gives a restricted caller a fresh rule set (possibly empty).
 func (e *Env) redrawRules(c *Caller) {
 	pats := append(append([]string{}, patternPool...), e.derivedPatterns()...)
-	nr := e.T.Range(0, 3)
-	c.Rules = nil
-	for j := 0; j < nr; j++ {
-		var r model.Rule
-		for k, na := 0, e.T.Range(1, 3); k < na; k++ {
-			r.Actions = append(r.Actions, allActions[e.T.Choice(len(allActions))])
-		}
-		for k, np := 0, e.T.Range(1, 2); k < np; k++ {
-			r.Patterns = append(r.Patterns, pats[e.T.Choice(len(pats))])
-		}
-		c.Rules = append(c.Rules, r)
-	}
+	c.Rules = e.drawRules(pats)
 	c.dbc = db.Caller{Principal: c.principal(), Permissions: toACL(c.Rules)}
 }
 
@@ -560,7 +554,16 @@ type Corruption struct {
 	NB     *string // browser header; nil: keep
 	Body   func([]byte) []byte
 	Path   string
+	// BodyErr: the connection breaks after the body bytes were delivered
+	// (reading the body ends in an error instead of EOF)
+	BodyErr bool
+	// Eff: the operation the damaged request amounts to if it is accepted
+	Eff *model.Op
 }
+
+type brokenBody struct{}
+
+func (brokenBody) Read([]byte) (int, error) { return 0, errors.New("sim: connection reset by peer") }
 
 func (e *Env) transport(c *Caller) func(*http.Request) (*http.Response, error) {
 	return func(r *http.Request) (*http.Response, error) {
@@ -602,7 +605,11 @@ func (e *Env) transport(c *Caller) func(*http.Request) (*http.Response, error) {
 		if e.parkHTTP {
 			e.S.Park("http", "deliver "+path, nil, nil, nil)
 		}
-		sreq := httptest.NewRequest("POST", path, bytes.NewReader(body))
+		var rd io.Reader = bytes.NewReader(body)
+		if cor != nil && cor.BodyErr {
+			rd = io.MultiReader(bytes.NewReader(body), brokenBody{})
+		}
+		sreq := httptest.NewRequest("POST", path, rd)
 		sreq.Method = method
 		sreq.Header = hdr
 		sreq.RemoteAddr = c.Addr
@@ -666,6 +673,10 @@ func (e *Env) Exec(c *Caller, op model.Op) model.Res {
 		if sv != nil {
 			res.Value = append([]byte{}, sv.Value...)
 			res.Version = uint32(sv.Version)
+			// the result belongs to the caller, who may scrub it after use
+			for i := range sv.Value {
+				sv.Value[i] ^= 0xA5
+			}
 		}
 	}
 	fillList := func(l []*api.SecretInfo) {
@@ -724,6 +735,9 @@ func (e *Env) Exec(c *Caller, op model.Op) model.Res {
 			if i, err = d.Info(id, op.Name); err == nil && i != nil {
 				m := infoOf(i)
 				res.Info = &m
+				for k := range i.Versions {
+					i.Versions[k] = 0
+				}
 			}
 		case model.OpGet:
 			var sv *api.SecretValue
@@ -739,7 +753,15 @@ func (e *Env) Exec(c *Caller, op model.Op) model.Res {
 			fill(sv)
 		case model.OpPut:
 			var v api.SecretVersion
-			v, err = d.Put(id, op.Name, op.Value)
+			// the argument belongs to the caller, who may reuse the buffer
+			arg := append([]byte(nil), op.Value...)
+			if op.Value != nil && arg == nil {
+				arg = []byte{}
+			}
+			v, err = d.Put(id, op.Name, arg)
+			for i := range arg {
+				arg[i] ^= 0x5A
+			}
 			res.Version = uint32(v)
 		case model.OpActivate:
 			err = d.Activate(id, op.Name, api.SecretVersion(op.Version))
